@@ -346,6 +346,8 @@ impl<'data> FileLoader<'data> {
     /// read inconsistent data from the changed object, so we want to fail the link.
     pub(crate) fn verify_inputs_unchanged(&self) -> Result {
         timing_phase!("Verify inputs unchanged");
+        #[cfg(wild_verif)]
+        simrt::event("in_verify_start", self.loaded_files.len() as u64, 0, 0);
 
         self.loaded_files.par_iter().try_for_each(|file| {
             let Some(file_data) = &file.data else {
@@ -654,6 +656,8 @@ impl<'data, P: Platform> TemporaryState<'data, P> {
     ) -> Result<FileLoadIndex> {
         let paths = input.path(self.args)?;
 
+        #[cfg(wild_verif)]
+        simrt::sched_point("in_load_index");
         let mut path_to_load_index = self.path_to_load_index.lock().unwrap();
 
         let index = match path_to_load_index.entry(paths.absolute.clone()) {
@@ -820,6 +824,16 @@ impl FileData {
             .with_context(|| {
                 format!("Failed to read file modification time `{}`", path.display())
             })?;
+        #[cfg(wild_verif)]
+        {
+            simrt::event(
+                "in_opened",
+                simrt::hash_str(&path.display().to_string()),
+                0,
+                0,
+            );
+            simrt::sched_point("in_opened");
+        }
 
         Ok((
             FileData {
